@@ -142,6 +142,7 @@ def run(chk):
         for name in ("tfhe_bootstrap_woKS_FFT", "tfhe_bootstrap_woKS"):
             f = v.fn(name)
             ps, eff = summ.pieces(v, f, hooks=NOINLINE)
+            ps = summ.fold_inline_calls(v, ps, ("modSwitchFromTorus32",))      # a switch expanded by hand is the switch
             x = f.params[3]["n"]
             X = sym.sym(x)
             uses = []
